@@ -12,6 +12,6 @@ open Uflow.Props.C03
 #print axioms C03_tcpInv_terminates
 #print axioms C03_tcpInv_terminates_path
 #print axioms C03_tcpInv_only_hang
-#print axioms C03_rate_overflow_witness
+#print axioms C03_rate_saturate_example
 #print axioms C03_rate_time_witness
 #print axioms C03_rate_hang_witness
